@@ -1,7 +1,141 @@
 import CogentModel.Json
-open CogentModel
+import CogentModel.Model.KV
+import CogentModel.Model.DataStore
+import CogentModel.Model.DataStoreSqlite
+import CogentModel.Spec.DataStoreDict
+open CogentModel CogentModel.KV CogentModel.DataStore
 
-def handle (cmd : String) (_j : J) : Except String J :=
-  throw s!"unknown command {cmd}"
+/-! line protocol of the C13 driver: data travel as strings, the checksum function is the
+identity (the harness compares the real md5 with the md5 of the payload the model stored). -/
+
+def S (s : Str) : J := J.str (String.ofList s)
+def optS : Option Str → J
+  | none => J.null
+  | some s => S s
+def optD : Option String → J
+  | none => J.null
+  | some s => J.str s
+
+def errName : Err → String
+  | .ioError => "OSError"
+  | .fileNotFound => "FileNotFoundError"
+  | .osError => "OSError"
+  | .integrity => "IntegrityError"
+  | .operational => "OperationalError"
+
+def resJ : Res → J
+  | .done none => J.null
+  | .done (some m) => S m
+  | .err e => J.obj [("err", J.str (errName e))]
+
+def parseMode (j : J) : Except String Mode := do
+  match ← j.toStr with
+  | "r" => pure .r
+  | "w" => pure .w
+  | "a" => pure .a
+  | m => throw s!"bad mode {m}"
+
+def parseOp (j : J) : Except String (Op String) := do
+  match ← j.toList with
+  | [J.str "w", J.str id, J.str d] => pure (.write id.toList d)
+  | [J.str "nc", J.str id, J.str d] => pure (.writeNc id.toList d)
+  | [J.str "log", J.str id, J.str d] => pure (.writeLog id.toList d)
+  | [J.str "drop", J.str id] => pure (.drop id.toList)
+  | [J.str "reopen", m] => do pure (.reopen (← parseMode m))
+  | [J.str "obs"] => pure .observe
+  | [J.str "unlock"] => pure .unlock
+  | _ => throw "bad op"
+
+def isObs : Op String → Bool
+  | .observe => true
+  | _ => false
+
+def mobsJ (m : MObs String) : J := J.arr [S m.name, optD m.content, optD m.md5]
+
+def dirObs (s : Dir String) : J :=
+  J.obj [("c", J.arr ((obsCompleted s).map mobsJ)), ("nc", J.arr ((obsNotCompleted s).map mobsJ)),
+         ("logs", J.arr (s.logs.map fun p => J.arr [S p.1, J.str p.2]))]
+
+def runDir (cfg : Cfg) : Dir String → List (Op String) → List J
+  | _, [] => []
+  | s, op :: ops =>
+    let (s1, r) := step cfg id s op
+    let o := if isObs op then [("obs", dirObs s1)] else []
+    J.obj (("r", resJ r) :: o) :: runDir cfg s1 ops
+
+open CogentModel.DataStoreSqlite in
+def sqlObs (s : Sql String) : J :=
+  let row (n : Str) : J :=
+    match get s.rows n with
+    | some r => J.arr [S n, J.str r.data, J.str r.md5]
+    | none => J.arr [S n, J.null, J.null]
+  J.obj [("c", J.arr (s.cCache.map row)), ("nc", J.arr (s.ncCache.map row)),
+         ("logs", J.arr (s.logRows.filterMap fun r =>
+            match r.name with
+            | some n => some (J.arr [S n, optD r.data])
+            | none => none))]
+
+open CogentModel.DataStoreSqlite in
+def runSql : Sql String → List (Op String) → List J
+  | _, [] => []
+  | s, op :: ops =>
+    let (s1, r) := DataStoreSqlite.step id s op
+    let ok := match r with
+      | .err _ => false
+      | _ => true
+    let o := if isObs op && ok then [("obs", sqlObs s1)] else []
+    J.obj (("r", resJ r) :: o) :: runSql s1 ops
+
+open CogentModel.DataStoreDict in
+def dictObs (d : Dict String) : J :=
+  let kv (m : KV String) : J := J.arr (m.map fun p => J.arr [S p.1, J.str p.2])
+  J.obj [("c", kv d.completed), ("nc", kv d.notCompleted), ("logs", kv d.logs)]
+
+open CogentModel.DataStoreDict in
+def runSpec (k : Kind) (sfx : Str) : Dict String → List (Op String) → List J
+  | _, [] => []
+  | d, op :: ops =>
+    let rej := rejects k sfx d op
+    let d1 := specStep k sfx d op
+    let o := if isObs op then [("obs", dictObs d1)] else []
+    J.obj (("rej", J.bool rej) :: o) :: runSpec k sfx d1 ops
+
+def optStrJ (o : Option Str) : J := optS o
+
+def handle (cmd : String) (j : J) : Except String J :=
+  match cmd with
+  | "dir" => do
+    let cfg : Cfg := { exactDrop := ← (← j.get "exact").toBool, roDropChecked := ← (← j.get "rocheck").toBool }
+    let sfx := (← (← j.get "sfx").toStr).toList
+    let mode ← parseMode (← j.get "mode")
+    let ops ← (← j.get "ops").toListOf parseOp
+    pure (J.arr (runDir cfg (Dir.create mode sfx) ops))
+  | "sql" => do
+    let mode ← parseMode (← j.get "mode")
+    let ops ← (← j.get "ops").toListOf parseOp
+    pure (J.arr (runSql (DataStoreSqlite.Sql.create mode) ops))
+  | "spec" => do
+    let k ← match ← (← j.get "kind").toStr with
+      | "dir" => pure DataStoreDict.Kind.directory
+      | "sql" => pure DataStoreDict.Kind.sqlite
+      | s => throw s!"bad kind {s}"
+    let sfx := (← (← j.get "sfx").toStr).toList
+    let mode ← parseMode (← j.get "mode")
+    let ops ← (← j.get "ops").toListOf parseOp
+    pure (J.arr (runSpec k sfx (DataStoreDict.Dict.empty mode) ops))
+  | "names" => do
+    -- the naming layer on one identifier
+    let sfx := (← (← j.get "sfx").toStr).toList
+    let suffix := (← (← j.get "suffix").toStr).toList
+    let uid := (← (← j.get "uid").toStr).toList
+    let n := resolve sfx suffix uid
+    let fs := getFormatSuffixes uid
+    pure (J.obj [("chk1", S n.chk1), ("file", S n.file), ("chk2", S n.chk2), ("md5", S n.md5),
+      ("dropkey", S (dropKey sfx uid)), ("dropmd5", S (dropMd5 uid)), ("md5lookup", S (md5Lookup sfx uid)),
+      ("stem", S (pathStem uid)), ("fs", J.arr [optS fs.1, optS fs.2]),
+      ("suffixes", J.arr ((pathSuffixes uid).map S)), ("special", J.bool (special uid)),
+      ("infix", J.bool (isInfix sfx uid)), ("ends", J.bool (endsWith uid sfx)),
+      ("replace", S (replaceAll uid sfx suffix))])
+  | _ => throw s!"unknown command {cmd}"
 
 def main : IO Unit := driverLoop handle
